@@ -1,7 +1,8 @@
 ---------------------------- MODULE GenFrame ----------------------------
 (* Case generator for C39.  A case is what goes over ONE connection (one pair of    *)
-(* framers, one zlib context): a prefix of `want` well-formed header-bearing frames  *)
-(* written by the real writer (they move the compression state), then one final     *)
+(* framers, one zlib context): a prefix of `want` frames handed to the real writer -- *)
+(* well-formed header-bearing ones (they move the compression state) and ones the    *)
+(* writer must refuse (they must leave no trace) --, then one final                  *)
 (* shape -- written (rt) or laid out raw, possibly malformed.  Every item carries    *)
 (* the Layer-P verdict p, the Layer-M prediction m, and ng (name comparison gray).  *)
 (* mode mc : exhaustive over (prefix, final).   mode sim : TLC -simulate.           *)
@@ -16,8 +17,9 @@ Item(s) == [s |-> s, p |-> PVerdict(s), m |-> MOutcome(s), ng |-> NameGray(s)]
 Warm == {s \in RtHdr : s.k \in WarmK /\ s.fl = 0 /\ s.np = 1 /\ s.n1 \in WarmN /\ s.v1 \in WarmV}
 
 GInit == seq = <<>> /\ want \in 0..MaxWarm /\ last = FALSE /\ fin = FALSE
+\* prefix frames: written ones (they move the compression state) and refused ones (they must not)
 AddWarm == /\ ~last /\ Len(seq) < want
-           /\ \E s \in Warm : seq' = Append(seq, Item(s))
+           /\ \E s \in Warm \cup RtRefused : seq' = Append(seq, Item(s))
            /\ UNCHANGED <<want, last, fin>>
 Final == /\ ~last /\ Len(seq) = want
          /\ \E s \in Shapes : seq' = Append(seq, Item(s))
